@@ -76,8 +76,8 @@ def run_group(nholders, rounds, T=100):
                 out.append(('failed-heartbeat-not-defunct' + ('.reply-during-wait' if g.hb_early_wakes else ''),
                             'holder %d: its heartbeat failed (replies per round %r, arrival instants %r, T=%d) but the connection is not defunct%s'
                             % (k, [r['replies'][k] for r in rounds], [(r.get('delays') or [0] * nholders)[k] for r in rounds], T,
-                               '; schedule: the heartbeat thread was blocked in HeartbeatFuture.wait() when the failing reply came in; it woke up when '
-                               '_event was set and read _exception before the callback had stored it' if g.hb_early_wakes else ''))
+                               ('; schedule: the heartbeat thread was blocked in HeartbeatFuture.wait() when the failing reply came in; it woke up when '
+                               '_event was set and read _exception before the callback had stored it') if g.hb_early_wakes else '')))
             if not told:
                 out.append(('failed-heartbeat.wrong-owner-notified', 'holder %d: its owner was never told about the failed heartbeat' % k))
         else:
